@@ -61,6 +61,8 @@ def plan(tier, seed):
             if dt != "bfloat16":
                 tasks.append({"kind": "large", "bits": bits, "dt": dt, "tier": tier})
             tasks.append({"kind": "repeat", "bits": bits, "dt": dt, "n": 48 if tier == "quick" else 300})
+            if dt != "bfloat16":
+                tasks.append({"kind": "hot", "bits": bits, "dt": dt, "n": 80 if tier == "quick" else 400})
     return tasks
 
 
@@ -211,7 +213,7 @@ def _large_task(task, out):
     counts; several tensors are quantized and dequantized first and only then judged (results must not share buffers)."""
     bits, dtname = task["bits"], task["dt"]
     dt = num.DTYPES[dtname]
-    cfgs = [((4101, 1024), 0, None), ((1000, 2048), 0, 128), ((2048, 1024), 0, 128), ((1030, 260), -1, None)]
+    cfgs = [((4101, 1024), 0, None), ((1000, 2048), 0, 128), ((2048, 1024), 0, 128), ((1030, 260), -1, None), ((64, 11008), 0, None), ((70, 9001), 0, None)]
     if task["tier"] == "thorough":
         cfgs += [((11008, 512), 0, 128), ((4099, 1056), 0, 96), ((520, 4100), -1, 130), ((3001, 2048), 0, 64), ((8193, 1024), 0, None), ((4100, 4224), 0, 128)]
     only = task.get("only")
@@ -223,7 +225,9 @@ def _large_task(task, out):
         held = []
         for rep in range(2):
             # group k holds class (k + rep) % 14, repeated along the group (period 16)
-            x = base[(gid + rep) % len(wq.CLASSES), pos % 16].to(dt)
+            x = base[(gid + rep) % len(wq.CLASSES), pos % 16]
+            # the extremes of every group sit in its tail (a range reduction that drops a partial last window under-estimates)
+            x = torch.where(pos >= gsz - 3, x * 3.0, x).to(dt)
             try:
                 num.poison(x.numel() * x.element_size(), x.numel())
                 q = _quant(x, bits, axis, gs)
@@ -286,9 +290,75 @@ def _repeat_task(task, out):
                 break
 
 
+def _hot_task(task, out):
+    """Repetition ladder with state carried between different tensors: (a) many quantizations of one shape, then another shape
+    with the same number of elements and group size (caches keyed on too little); (b) one tensor object quantized many times,
+    then updated in place (through .data, through an in-place op, through copy_) and quantized again (memos that go stale)."""
+    bits, dtname, n = task["bits"], task["dt"], task["n"]
+    dt = num.DTYPES[dtname]
+    only = task.get("only")
+    base = torch.stack([wq.gen_class(c, 16, dtname, k) for k, c in enumerate(wq.CLASSES)])
+
+    def mk(shape, axis, gs, k):
+        gid, pos, ng, gsz = wq.group_ids(shape, axis, gs)
+        return base[(gid + k) % len(wq.CLASSES), pos % 16].to(dt)
+
+    for axis, gs, s1, s2 in ((-1, 64, (512, 128), (128, 512)), (0, 64, (128, 512), (512, 128)), (-1, None, (300, 220), (220, 300))):
+        c = ["shapes", axis, gs]
+        if only and only != c:
+            continue
+        fields = {"kind": "hot", "bits": bits, "dtype": dtname, "axis": axis, "grouped": gs is not None}
+        case = dict(task, only=c)
+        out["evals"] += 1
+        out["points"] += 1
+        out["nontrivial"] += 1
+        try:
+            for i in range(n):
+                _quant(mk(s1, axis, gs, i), bits, axis, gs)
+                out["calls"] += 1
+            for shape in (s2, s1, s2):
+                x = mk(shape, axis, gs, 3)
+                q = _quant(x, bits, axis, gs)
+                for sub, cnt, msg, extra in wq.affine_judge(x, q, bits, axis, gs, dtname, idempotence=False):
+                    out["violations"].append(violation(PID, case, dict(fields, sub="hot_" + sub, **extra), f"hot_{sub}: shape {shape} quantized after {n} quantizations of shape {s1} (axis {axis}, group {gs}): {msg}", {"count": cnt}))
+        except Exception as e:  # noqa
+            out["violations"].append(violation(PID, case, dict(fields, sub="raised"), f"raised: hot-layout ladder {c}: {type(e).__name__}: {e}"))
+    for how in ("data_mul", "inplace_mul", "copy", "data_copy"):
+        c = ["same_object", how]
+        if only and only != c:
+            continue
+        fields = {"kind": "hot", "bits": bits, "dtype": dtname, "axis": 0, "grouped": True, "update": how}
+        case = dict(task, only=c)
+        out["evals"] += 1
+        out["points"] += 1
+        out["nontrivial"] += 1
+        try:
+            x = mk((8, 64), 0, 32, 0)
+            with torch.no_grad():
+                for i in range(2 * n):
+                    _quant(x, bits, 0, 32)
+                    out["calls"] += 1
+                other = mk((8, 64), 0, 32, 5) * 4.0
+                if how == "data_mul":
+                    x.data.mul_(4.0)
+                elif how == "inplace_mul":
+                    x.mul_(4.0)
+                elif how == "copy":
+                    x.copy_(other)
+                else:
+                    x.data.copy_(other)
+                q = _quant(x, bits, 0, 32)
+            for sub, cnt, msg, extra in wq.affine_judge(x, q, bits, 0, 32, dtname, idempotence=False):
+                out["violations"].append(violation(PID, case, dict(fields, sub="stale_" + sub, **extra), f"stale_{sub}: tensor quantized {2 * n} times, then updated in place ({how}) and quantized again: {msg}", {"count": cnt}))
+        except Exception as e:  # noqa
+            out["violations"].append(violation(PID, case, dict(fields, sub="raised"), f"raised: same-object ladder {c}: {type(e).__name__}: {e}"))
+
+
 def run_task(task):
     out = {"evals": 0, "nontrivial": 0, "points": 0, "calls": 0, "violations": [], "samples": [], "counters": {}}
-    if task["kind"] == "repeat":
+    if task["kind"] == "hot":
+        _hot_task(task, out)
+    elif task["kind"] == "repeat":
         _repeat_task(task, out)
     elif task["kind"] == "large":
         _large_task(task, out)
@@ -315,7 +385,9 @@ def run_task(task):
 
 def replay_task(case):
     out = {"evals": 0, "nontrivial": 0, "points": 0, "calls": 0, "violations": [], "samples": [], "counters": {}}
-    if case["kind"] == "repeat":
+    if case["kind"] == "hot":
+        _hot_task(case, out)
+    elif case["kind"] == "repeat":
         _repeat_task(case, out)
     elif case["kind"] == "large":
         _large_task(case, out)
